@@ -86,7 +86,7 @@ def harness(ctx):
     if g in ("matmul", "bcast"):
         kinds = ["vec", "mat", "batched"] if g == "matmul" else ["bcast"]
         for k, shp in rhs_shapes(n_in, obatch, kinds).items():
-            X = ctx.leaf(f"X{k}", shp)
+            X = ctx.leaf(f"argX{k}", shp)
             try:
                 expect = ref @ X
             except RuntimeError:
@@ -105,7 +105,7 @@ def harness(ctx):
 
     if g == "rmatmul":
         for k, shp in {"vec": (m_out,), "mat": (2, m_out), "batched": obatch + (1, m_out) if obatch else (2, 1, m_out)}.items():
-            Y = ctx.leaf(f"Y{k}", shp)
+            Y = ctx.leaf(f"argY{k}", shp)
             expect = Y @ ref
             attempt(ctx, f"rmatmul[{k}]", lambda Y=Y, expect=expect, k=k: ctx.eq(Y @ op, expect, f"rmatmul[{k}]"))
             attempt(ctx, f"rmatmul()[{k}]", lambda Y=Y, expect=expect, k=k: ctx.eq(op.rmatmul(Y), expect, f"rmatmul()[{k}]"))
@@ -113,7 +113,7 @@ def harness(ctx):
 
     if g == "transpose":
         for k, shp in rhs_shapes(m_out, obatch, ["vec", "mat"]).items():
-            X = ctx.leaf(f"X{k}", shp)
+            X = ctx.leaf(f"argX{k}", shp)
             expect = ref.mT @ X
             attempt(ctx, f"mT@[{k}]", lambda X=X, expect=expect, k=k: ctx.eq(op.mT @ X, expect, f"mT@[{k}]"))
             if X.dim() >= 2:
